@@ -48,6 +48,9 @@ pub struct FileFacts {
     /// diagnostics of the plain entry point `SourceFile::parse` (parser + validation, no lexical
     /// gate) when they differ from those of the lex-checked parse although the lexer found nothing
     pub plain_parse_differs: Option<(usize, usize)>,
+    /// first diagnostic of the plain entry point, on a text with lexical errors, whose span is
+    /// not valid for the text
+    pub plain_parse_bad_span: Option<(usize, usize, String)>,
 }
 
 pub fn analyze_text(text: &str) -> Result<FileFacts, String> {
@@ -81,8 +84,25 @@ pub fn analyze_text(text: &str) -> Result<FileFacts, String> {
             node_ranges: vec![],
             tree_mismatch: None,
             plain_parse_differs: None,
+            plain_parse_bad_span: None,
         };
         if !have_parse {
+            // The pipeline stops here, but the plain entry point `SourceFile::parse` goes on to
+            // parse and reports the lexical diagnostics as well: its spans must be valid for this
+            // text too (S1). A panic of that parse on lexically broken text is not this check's
+            // subject and is ignored.
+            let t = text.to_string();
+            if let Ok(errs) = catch_unwind(AssertUnwindSafe(|| {
+                synast::SourceFile::parse(&t)
+                    .errors()
+                    .iter()
+                    .map(|e| (usize::from(e.range().start()), usize::from(e.range().end()), e.to_string()))
+                    .collect::<Vec<_>>()
+            })) {
+                facts.plain_parse_bad_span = errs.into_iter().find(|(s, e, _)| {
+                    !(s <= e && *e <= text.len() && text.is_char_boundary(*s) && text.is_char_boundary(*e))
+                });
+            }
             return facts;
         }
         // the lexer found nothing: "then all its diagnostics are syntactic", i.e. what the parser
